@@ -18,7 +18,7 @@ RULE = (
     'same Jumps handed to the public Collective(...) constructor with windows 1-50 and cut-offs around the site '
     'separations; (iii) arbitrary jump tables (up to 60 / 300 rows: 2-6 atoms, transit times 1-300 frames so that '
     'long-transit jumps overlap many others, simultaneous jumps, equal stop times, same-atom neighbours) injected '
-    'through the public Jumps(transitions, conversion_method=...) parameter.  Oracle: O(n^2) pair enumeration with '
+    'through the public Jumps(transitions, conversion_method=...) parameter, presented in different row orders (shuffled, chronological, grouped by atom, reverse) and with different row labels (0..n-1, labels kept from another order, offset, with gaps).  Oracle: O(n^2) pair enumeration with '
     'image-enumeration distances.  Non-trivial = the model finds at least one collective pair and at least one jump '
     'whose transit exceeds the window; distinct = SHA-1 of (jump table, sites, window, cut-off).'
 )
@@ -195,6 +195,28 @@ def run_unit(unit, rng, ctx):
         if len(table) >= 2:
             df = pd.DataFrame(table, columns=COLS)
             df = df.sample(frac=1.0, random_state=int(rng.integers(2**31))).reset_index(drop=True)
+            # presentation of the table: row order (shuffled / chronological / grouped by atom) and row labels
+            # (default 0..n-1, labels kept from another order, offset, with gaps)
+            order = str(rng.choice(['shuffled', 'by_stop', 'by_stop_start', 'by_atom', 'by_start_desc']))
+            if order == 'by_stop':
+                df = df.sort_values(['stop time'], kind='stable')
+            elif order == 'by_stop_start':
+                df = df.sort_values(['stop time', 'start time'], kind='stable')
+            elif order == 'by_atom':
+                df = df.sort_values(['atom index', 'start time'], kind='stable')
+            elif order == 'by_start_desc':
+                df = df.sort_values(['start time'], ascending=False, kind='stable')
+            index = str(rng.choice(['range', 'kept', 'offset', 'gaps']))
+            if index == 'range':
+                df = df.reset_index(drop=True)
+            elif index == 'offset':
+                df = df.reset_index(drop=True)
+                df.index = df.index + int(rng.integers(1, 1000))
+            elif index == 'gaps':
+                df = df.reset_index(drop=True)
+                df.index = np.sort(rng.choice(5 * len(df), size=len(df), replace=False))
+            ctx.count(f'injected_table_order:{order}')
+            ctx.count(f'injected_table_index:{index}')
             jj = Jumps(tr, conversion_method=lambda transitions, minimal_residence=0, _df=df: _df.copy())
             w3 = int(rng.choice([1, 2, 5, 10, 25, 50, 120]))
             c3 = pick_cutoff(rng, dsite)
